@@ -14,17 +14,22 @@
      :forget_local / inspection requests whose expressions are in the
      structured fragment with parser-consistent value_is_used flags
      (`wf_request`: no for/break/continue/return/closure literal/match), no
-     response is SessionPanic -- PROVIDED the evaluator keeps the value-stack /
-     binding-block discipline `stack_run` for one loop iteration
-     (`evaluator_keeps_discipline`, the machine-level part of property C02).
-     That hypothesis is NOT proved here (it is tested by differential execution
-     and by search only); what IS proved is that every session command -- in
-     particular the repaired `:skip`, `:replace` popping a value, `run`
-     overwriting the pending expressions of the current frame, `:abort`,
-     `:forget_local`, and stopping at a call -- preserves that discipline, which
-     is exactly what the unrepaired `:skip` broke. *)
+     response is SessionPanic, given `evaluator_keeps_discipline p`.
+   * machine_no_crash_partial / run_no_crash_partial / evaluator_discipline
+     (Discipline.v): that hypothesis is now PROVED for every program whose
+     function bodies are in the same fragment (`wf_prog`), whose namespace
+     values contain no closure (`globals_ok`) and no Int (`globals_noint`): one
+     iteration of the eval loop from a state satisfying the discipline
+     `stack_run` never crashes and keeps it (a case analysis over all of
+     Machine.exec for int/string literals, variables, binary operators, let,
+     assignment, += / -=, if, while, list and tuple literals, calls of named
+     functions / built-ins / enum constructors, parentheses).
+   * handle_no_panic: hence UNCONDITIONALLY, for such programs and requests, no
+     state reachable from a fresh session answers SessionPanic.
+   Not covered by these theorems (search only): for, break, continue, return,
+   closure literals, match, and everything of garden outside Machine.v. *)
 From Coq Require Import ZArith NArith Bool List.
-From Garden Require Import Base.Int64 Arith gen.Tables Machine MachineInv MachineSession Session SessionProps.
+From Garden Require Import Base.Int64 Arith gen.Tables Machine MachineInv MachineSession Session SessionProps Discipline.
 Import ListNotations.
 Open Scope nat_scope.
 
@@ -59,6 +64,42 @@ Theorem handle_no_panic_partial : forall fuel p, evaluator_keeps_discipline p ->
   reachable fuel p s -> forall r, wf_request r = true -> snd (handle all_fixes fuel p s r) <> SessionPanic.
 Proof. exact handle_no_panic_partial_lemma. Qed.
 Print Assumptions handle_no_panic_partial.
+
+(* The evaluator keeps the discipline: the hypothesis above holds for every
+   well-formed program. *)
+Theorem evaluator_discipline : forall p,
+  wf_prog p = true -> globals_ok p = true -> globals_noint p = true -> evaluator_keeps_discipline p.
+Proof. intros p W G N. apply evaluator_keeps_discipline_lemma. repeat split; assumption. Qed.
+Print Assumptions evaluator_discipline.
+
+(* Machine level (referenced by C02): from a state that satisfies the
+   value-stack / binding-block discipline one iteration of the eval loop never
+   hits an `expect` / `unreachable!` ... *)
+Theorem machine_no_crash_partial : forall p,
+  wf_prog p = true -> globals_ok p = true -> globals_noint p = true ->
+  forall s, stack_run (stack s) -> step p s <> Crashed.
+Proof. intros p W G N. apply machine_no_crash_lemma. repeat split; assumption. Qed.
+Print Assumptions machine_no_crash_partial.
+
+(* ... so a whole program of well-formed toplevel expressions never crashes,
+   however long it runs. *)
+Theorem run_no_crash_partial : forall p exprs,
+  wf_prog p = true -> globals_ok p = true -> globals_noint p = true -> wf_all_used exprs = true ->
+  forall n, run p n (init_state exprs None None) <> RCrashed.
+Proof. intros p exprs W G N WE. apply run_no_crash_lemma; [repeat split; assumption|exact WE]. Qed.
+Print Assumptions run_no_crash_partial.
+
+(* UNCONDITIONAL: no state reachable from a fresh session through well-formed
+   requests answers SessionPanic. *)
+Theorem handle_no_panic : forall fuel p,
+  wf_prog p = true -> globals_ok p = true -> globals_noint p = true ->
+  forall s, reachable fuel p s -> forall r, wf_request r = true ->
+  snd (handle all_fixes fuel p s r) <> SessionPanic.
+Proof.
+  intros fuel p W G N. apply handle_no_panic_partial_lemma.
+  apply evaluator_keeps_discipline_lemma. repeat split; assumption.
+Qed.
+Print Assumptions handle_no_panic.
 
 (* ---- examples ------------------------------------------------------------- *)
 Definition mt (u : bool) (a b : N) : meta := {| used := u; pstart := a; pend := b |}.
@@ -130,3 +171,21 @@ Example example_requests_wf :
   /\ wf_prog ok_f = true /\ globals_ok ok_f = true.
 Proof. vm_compute. auto. Qed.
 Print Assumptions example_requests_wf.
+
+
+(* the hypotheses of handle_no_panic / run_no_crash_partial are satisfiable (ok_f,
+   and the requests above), and they cannot be dropped: a list literal whose
+   items are marked unused pops values that were never pushed *)
+Example wf_hypotheses_satisfiable :
+  wf_prog ok_f = true /\ globals_ok ok_f = true /\ globals_noint ok_f = true /\
+  wf_all_used [ECall (mt true 0 4) (EVar (mt true 0 1) 22%N) [EInt (mt true 2 3) 1]] = true /\
+  run ok_f 50 (init_state [ECall (mt true 0 4) (EVar (mt true 0 1) 22%N) [EInt (mt true 2 3) 1]] None None)
+  = RDone (VInt 1) (mkState [mkFrame [] [vunit] [[]] [] true] 6 [] false None None).
+Proof. vm_compute. repeat split; reflexivity. Qed.
+Print Assumptions wf_hypotheses_satisfiable.
+
+Example wf_hypothesis_needed :
+  wf_all_used [EList (mt true 0 6) [EInt (mt false 1 2) 1; EInt (mt false 4 5) 2]] = false /\
+  run ok_f 50 (init_state [EList (mt true 0 6) [EInt (mt false 1 2) 1; EInt (mt false 4 5) 2]] None None) = RCrashed.
+Proof. vm_compute. split; reflexivity. Qed.
+Print Assumptions wf_hypothesis_needed.
